@@ -487,6 +487,23 @@ class C02(Prop):
                 if len(c.result["out"]) > 5000 and not ctx.thorough():
                     continue
                 out.append(Case("pass_dec", pw=pw, data=c.result["out"], oracle=orc, tags=["wrong-password"]))
+        # KNOWN FINDING (PBKDF2-HMAC key hashing, RFC 2104): a password longer than the 64-byte HMAC block and its
+        # 32-byte SHA-256 digest derive the same scrypt key, so the digest is a DIFFERENT password that decrypts
+        import hashlib
+        for c in files[:1]:
+            longpw = b"L" * 65
+            P = c.a["data"]
+            enc = Case("pass_enc", pw=longpw, salt=ctx.rbytes(32), data=P[:64])
+            vlib.run_impl(ctx.bin, [enc])
+
+            def orc2(res, P=P[:64]):
+                if res["code"] == 0:
+                    return ("a different password is rejected", "ok: the SHA-256 digest of a >64-byte password decrypts the file",
+                            "hmac-key-hashing")
+                return None
+            out.append(enc)
+            out.append(Case("pass_dec", pw=hashlib.sha256(longpw).digest(), data=enc.result["out"], oracle=orc2,
+                            tags=["digest-of-long-password"]))
         return out + roundtrip_chunk_cases(ctx, False)[:120]
 
 
